@@ -110,6 +110,58 @@ type tap struct {
 	txLog       []txCopy         // every /tx body this node tried to send
 	partitioned bool             // no /halt or /tx request of this node reaches anybody
 	onSend      func(key string) // called right before a /halt or /tx request goes out (nil = nobody waits for it)
+	stall       *stallGate       // if set, the body of the next POST /tx stops after a prefix until released
+}
+
+// stallGate holds a forwarded commit in flight: the request header and the first bytes of the body (the
+// LTX header) reach the primary, the rest waits for release().
+type stallGate struct {
+	after   int
+	reached chan struct{}
+	rel     chan struct{}
+	once    sync.Once
+}
+
+func (g *stallGate) release() { g.once.Do(func() { close(g.rel) }) }
+
+type stallReader struct {
+	b    []byte
+	off  int
+	g    *stallGate
+	told bool
+}
+
+func (r *stallReader) Read(p []byte) (int, error) {
+	if r.off >= len(r.b) {
+		return 0, io.EOF
+	}
+	lim := len(r.b)
+	if r.off < r.g.after {
+		lim = r.g.after
+		if lim > len(r.b) {
+			lim = len(r.b)
+		}
+	} else {
+		if !r.told {
+			r.told = true
+			close(r.g.reached)
+		}
+		<-r.g.rel
+	}
+	n := copy(p, r.b[r.off:lim])
+	r.off += n
+	return n, nil
+}
+
+func (r *stallReader) Close() error { return nil }
+
+// stallNextTx arms the gate for the next POST /tx of this node.
+func (t *tap) stallNextTx(after int) *stallGate {
+	g := &stallGate{after: after, reached: make(chan struct{}), rel: make(chan struct{})}
+	t.mu.Lock()
+	t.stall = g
+	t.mu.Unlock()
+	return g
 }
 
 func (t *tap) notifySend(f func(key string)) {
@@ -185,6 +237,17 @@ func (t *tap) RoundTrip(req *http.Request) (*http.Response, error) {
 		t.mu.Unlock()
 		req.Body = io.NopCloser(bytes.NewReader(b))
 		req.ContentLength = int64(len(b))
+		t.mu.Lock()
+		g := t.stall
+		t.stall = nil
+		t.mu.Unlock()
+		if g != nil && len(b) > g.after {
+			req.Body = &stallReader{b: b, g: g}
+			req.GetBody = nil
+		} else if g != nil {
+			g.release()
+			close(g.reached)
+		}
 	}
 	ev := event{Node: t.node, Kind: "http", Label: key, LockID: id, To: t.w.roleOfHost(req.URL.Host)}
 	t.mu.Lock()
